@@ -160,6 +160,31 @@ def _multi(task):
     return out
 
 
+def _stdin_edge(kind):
+    """scan-stdin / scan_string on input that cannot be decoded or encoded: nothing may be left behind"""
+    out = {"task": ((kind,), "default", "scan-stdin-edge"), "fail": None}
+    with app.Sandbox({"keep.md": "# a\n"}) as sb:
+        before = sb.snapshot()
+        if kind == "undecodable-stdin":
+            app.run_main(["scan-stdin"], sb, stdin_text=b"# T\n\xff\xfe\n")
+        elif kind == "empty-stdin":
+            app.run_main(["scan-stdin"], sb, stdin_text=b"")
+        else:
+            from pymarkdown.api import PyMarkdownApi, PyMarkdownApiException
+
+            with app.in_sandbox(sb):
+                try:
+                    PyMarkdownApi().scan_string("# a \ud800\n")
+                except PyMarkdownApiException:
+                    pass
+                except Exception as e:  # noqa: BLE001
+                    out["note"] = type(e).__name__
+        after = sb.snapshot()
+        if after != before:
+            out["fail"] = ("multi:scan-stdin-left-files-behind", {"kind": kind, "new_or_changed": sorted(k for k in after if after[k] != before.get(k))})
+    return out
+
+
 def extra_cases(tier):
     tasks = []
     maxn = 3
@@ -175,6 +200,7 @@ def extra_cases(tier):
                         continue
                     tasks.append((sel, scheme, mode))
     results = pool.pmap(_multi, tasks)
+    results += [_stdin_edge(k) for k in ("undecodable-stdin", "api-lone-surrogate", "empty-stdin")]
     cases = []
     nontriv = 0
     for r in results:
@@ -187,6 +213,8 @@ def extra_cases(tier):
 
 def evaluate_key(key):
     k = json.loads(key)
+    if k[0] == "multi" and k[3] == "scan-stdin-edge":
+        return _stdin_edge(k[1][0])["fail"]
     if k[0] == "multi":
         return _multi((tuple(k[1]), k[2], k[3]))["fail"]
     return evaluate((k[0], k[1])).get("fail")
@@ -211,6 +239,10 @@ def replay(path):
     with open(path) as f:
         rp = json.load(f)
     k = json.loads(rp["case"]["key"])
+    if k[0] == "multi" and k[3] == "scan-stdin-edge":
+        r = _stdin_edge(k[1][0])
+        print("replay", k, "->", r["fail"])
+        return 1 if r["fail"] else 0
     if k[0] == "multi":
         r = _multi((tuple(k[1]), k[2], k[3]))
         print("replay", k, "->", r["fail"])
